@@ -106,6 +106,33 @@ func main(a, b uint32) (uint32, uint32, bool, uint64) {
 	return g(a), g(b), bytes.Equal(buf, buf), math.MaxUint64
 }
 `,
+	// two imported packages that both have package-level variables (their
+	// initialisers are emitted into the program)
+	`package main
+
+import (
+	"crypto/aes"
+	"encoding/hex"
+)
+
+func main(k [16]byte, d [16]byte) (string, [16]byte) {
+	return hex.EncodeToString(d), aes.EncryptBlock(k, d)
+}
+`,
+	`package main
+
+import (
+	"crypto/hkdf"
+	"encoding/hex"
+	"crypto/aes"
+	"bytes"
+)
+
+func main(k [16]byte, d [16]byte) (string, [16]byte, int) {
+	x := aes.EncryptBlock(k, d)
+	return hex.EncodeToString(x), aes.DecryptBlock(k, x), bytes.Compare(k, d)
+}
+`,
 }
 
 type c08Program struct {
@@ -207,7 +234,7 @@ func init() {
 	vrt.Register(&vrt.Prop{
 		ID: "C08", Level: "exploration",
 		Rule: "case = one (program, parameter variant {default, prune, GMW, GMW+prune}): shipped test programs and examples that import library packages, three fixtures importing 5 packages each with package-level constants, and generated programs. " +
-			"The triple (sha256 of Circuit.Marshal, sha256 of the SSA listing, I/O description) is collected from: k fresh Compiler instances, one instance reused, after a PRNG-chosen history of other compilations, 4 goroutines compiling concurrently, and m separate OS processes (Go randomises every map iteration per process and per range statement). " +
+			"The triple (sha256 of Circuit.Marshal, sha256 of the SSA listing, I/O description) is collected from: k fresh Compiler instances, one instance reused after a PRNG-chosen history of other compilations including failed ones (the same and another program with an undefined name at the end of main, or a syntax error), 4 goroutines compiling concurrently, and m separate OS processes (Go randomises every map iteration per process and per range statement). " +
 			"Oracle: exactly one distinct triple. quick: 6 in-process + 4 concurrent + 2 processes; thorough: 12 + 8 + 6. Distinct = hash(program, variant); non-trivial = it compiled.",
 		Assumptions: []string{"directory order of the file system cannot be varied in this sandbox"},
 		NumCases: func(t string) int {
@@ -293,6 +320,21 @@ func runC08(cs *vrt.Case) {
 		if len(other.src) < 4000 {
 			vrt.Guard(func() { c08Compile(cc, params, other.src, other.sizes) })
 		}
+		// ... and failed compilations: the program itself broken at a
+		// PRNG-chosen point (an undefined name at the end of main, so that
+		// code generation has already run through its library calls; or a
+		// syntax error), and the broken version of another program
+		for _, q := range []c08Program{p, other} {
+			if len(q.src) >= 4000 && q.name != p.name {
+				continue
+			}
+			broken := c08Break(r, q.src)
+			var ferr error
+			vrt.Guard(func() { _, ferr, _ = c08Compile(cc, params, broken, q.sizes) })
+			if ferr != nil {
+				cs.Count("failed_compilations_in_history", 1)
+			}
+		}
 	}
 	// concurrent compilations
 	var wg sync.WaitGroup
@@ -361,6 +403,18 @@ func runC08(cs *vrt.Case) {
 	}
 	cs.Key(p.name, fmt.Sprint(variant), fmt.Sprint(vrt.HashBytes([]byte(p.src))))
 	cs.Seen("programs", p.name)
+}
+
+// c08Break makes a program fail to compile: mostly a reference to an
+// undefined name in the last return statement (fails in code generation,
+// after the imported packages were initialised and library functions were
+// instantiated), sometimes a syntax error (fails in the parser).
+func c08Break(r *vrt.Rng, src string) string {
+	i := strings.LastIndex(src, "\treturn ")
+	if i < 0 || r.Intn(4) == 0 {
+		return src + "\nfunc broken( {\n"
+	}
+	return src[:i] + "\tverifUndefined = verifUndefinedName\n" + src[i:]
 }
 
 func c08Aux(args []string) int {
